@@ -659,6 +659,8 @@ class Parser:
             else:
                 length = self._parse_constant(
                     typenode.dim, partial_length_ok=partial_length_ok)
+                if not isinstance(length, str) and length > sys.maxsize:
+                    raise CDefError("array length too large")
             # a hack: in 'typedef int foo_t[...][...];', don't use '...' as
             # the length but use directly the C expression that would be
             # generated by recompiler.py.  This lets the typedef be used in
